@@ -76,7 +76,12 @@ CLEARSOL_KS = [0, 1, 2, 5]
 # problem definition B whose start is far from the (still sealed) goal, solve k - against `setpd B; solve k` on a FRESH planner
 # object with the same harness seed.  B's goal cannot be reached exactly, so the status class does not depend on sampling luck.
 QB_SEALED = ((0.13, 0.87), (0.9, 0.9))
-DIFF_KS = {"quick": [0, 5], "thorough": [0, 1, 2, 5, 13, 34, 89]}
+# The status class of a single solve is independent of the random numbers only at k = 0 (every planner) and, for geometric
+# planners (a control propagation can step across the thin walls of the pocket), once the budget is large (k = 250): those are
+# the STRICT ks (compared with the fresh planner); the other ks run the cleared history under the spec oracle only (crash, leak,
+# status truthfulness).  Measured on the unchanged tree (k = 5: 17 of 55 planners differ by sampling luck alone).
+DIFF_KS = {"quick": [0, 5], "thorough": [0, 1, 2, 5, 13, 34, 89, 250]}
+STRICT_KS = {"quick": [0], "thorough": [0, 250]}
 SEALED_K = 250
 ROADMAP = {"PRM", "PRMstar", "LazyPRM", "LazyPRMstar", "SPARS", "SPARStwo"}   # override setProblemDefinition (clearQuery)
 
@@ -1267,8 +1272,9 @@ def run(ck):
         for k in (CLEARSOL_KS[:1] + CLEARSOL_KS[2:] if quick else CLEARSOL_KS):
             jobs.append((p, seeds[p], "clearsol-sealed", k, SEALED_K, hs["clearsol-sealed"](k, SEALED_K)))
         for k in DIFF_KS["quick" if quick else "thorough"]:
-            for hn in ("clear-newpd-sealed", "fresh-sealed"):
-                jobs.append((p, seeds[p], hn, k, SEALED_K, hs[hn](k, SEALED_K)))
+            jobs.append((p, seeds[p], "clear-newpd-sealed", k, SEALED_K, hs["clear-newpd-sealed"](k, SEALED_K)))
+            if k in STRICT_KS["quick" if quick else "thorough"] and (k == 0 or p in GEOMETRIC):
+                jobs.append((p, seeds[p], "fresh-sealed", k, SEALED_K, hs["fresh-sealed"](k, SEALED_K)))
         if quick:
             # every k with the basic histories, the longer ones on a rotating subset of k
             for j, k in enumerate(ks):
@@ -1316,7 +1322,7 @@ def run(ck):
         if r2 is None or not r1["out"] or not r2["out"]:
             continue
         ck.count("differential:fresh-vs-cleared:pairs")
-        for (i1, i2) in ((4, 1), (6, 3)):
+        for (i1, i2) in (((4, 1), (6, 3)) if k == 0 else ((4, 1),)):     # the resumed second solve is compared at k = 0 only
             c1, c2 = solve_class(r1["out"], i1), solve_class(r2["out"], i2)
             if c1 is None or c2 is None:
                 continue        # a missing line is a crash: the spec oracle has reported it with the same script
@@ -1343,7 +1349,7 @@ def run(ck):
     if ck.lean_ok:
         r = ck.rng.fork("lockstep")
         ljobs = []
-        lhs = {n: f for n, f in hs.items() if n not in ("clearsol-sealed", "multigoal", "multigoal-blocks", "free-exact", "free-exact-dyadic", "ptc-kinds")}
+        lhs = {n: f for n, f in hs.items() if n not in ("clear-newpd-sealed", "fresh-sealed", "clearsol-sealed", "multigoal", "multigoal-blocks", "free-exact", "free-exact-dyadic", "ptc-kinds")}
         for planner in LOCKSTEP_CORE:
             # thorough: three harness seeds for the two cores of the earlier rounds, two for the round-10 cores (RRTi, RRTConnect)
             lseeds = [seeds[planner], r.below(1000)] if quick else [seeds[planner]] + [r.below(1000) for _ in range(2 if planner in ("RRT", "cRRTi") else 1)]
